@@ -9,9 +9,9 @@ def _c13_case(c):
 CONFIG = {
     "properties_file": "Properties/C13.v",
     "proof_files": ["Base/Prelude.v", "Base/Regex.v", "Proofs/Reference.v", "Proofs/RemoteClient.v",
-                    "Proofs/RemoteSeek.v", "Proofs/RemoteRefine.v"],
+                    "Proofs/RemoteSeek.v", "Proofs/RemoteRefine.v", "Proofs/Location.v"],
     "model_files": ["Generated/GC20.v", "Generated/GC13.v", "Model/Reference.v", "Model/Registry.v",
-                    "Model/RemoteClient.v", "Model/RemoteSpec.v"],
+                    "Model/RemoteClient.v", "Model/RemoteSpec.v", "Model/Location.v"],
     "extract": "XC13.v",
     "ml_main": "c13_main.ml",
     "harness": "c13",
